@@ -19,7 +19,7 @@ theorem trailing_only_final {D σ : Type} (S : Sem D σ) (s0 : σ) (lines : List
 same world afterwards (the option never changes temp files), outputs equal up to one final `le` -/
 theorem pass_trailing {W : Type} (Wd : World W) (mode : Mode) (le : List Char) (first : Bool) (w : W)
     (lines : List (List Char)) :
-    match ppPass Wd mode le first false w lines, ppPass Wd mode le first true w lines with
+    match ppPass Wd mode le first false w lines true, ppPass Wd mode le first true w lines true with
     | .err, .err => True
     | .hasDeps d w0, .hasDeps d1 w1 => d = d1 ∧ w0 = w1
     | .ok o w0, .ok o1 w1 => w0 = w1 ∧ (o1 = o ∨ o1 = o ++ le)
